@@ -178,3 +178,21 @@ Fixpoint admissible (p : hpoly) (cs : list cons3) : bool :=
   | [] => true
   | (u, v, x) :: r => existsb (fun t => applies u v (fst t)) p && admissible (subst_step (u, v, x) p) r
   end.
+
+(* ---------- make_quadratic(poly, strength, vartype, bqm=base) / make_quadratic_cqm(poly, vartype, cqm=base) ----------
+   the supplied model, converted to the requested vartype (change_vartype), plus what is built for the polynomial *)
+Definition poly_vars (p : poly) : list label :=
+  dedup (map fst (p_lin p) ++ flat_map (fun t => [fst (fst t); snd (fst t)]) (p_quad p)).
+
+Definition convert_base (vt bvt : vartype) (p : poly) : poly :=
+  match bvt, vt with
+  | SPIN, BINARY => substitute_many (poly_vars p) two (- (1)) p      (* s = 2x - 1 *)
+  | BINARY, SPIN => substitute_many (poly_vars p) half half p        (* x = (s + 1)/2 *)
+  | _, _ => p
+  end.
+
+Definition with_base (vt : vartype) (base : option (vartype * poly)) (q : poly) : poly :=
+  match base with
+  | None => q
+  | Some (bvt, p) => padd (convert_base vt bvt p) q
+  end.
